@@ -461,7 +461,8 @@ def observable_rule(chk, src):
 
         def __neg__(self):
             return P(f"-({self._name})")
-    it = SymInterp(src, None, {"np": Sym("np", array=lambda x: x, allclose=lambda *a: True, log=lambda x: P(f"log({x!r})"))})
+    from ..syminterp import OpenSym
+    it = SymInterp(src, None, {"np": OpenSym("np", make=P, array=lambda x: x, allclose=lambda *a: True)})
     out = it.call_function(fe, [P("p")])
     norm = "(p)/(sum(p))"
     kept = f"{norm}[{norm}>0]"
